@@ -1719,9 +1719,11 @@ def builtin_identity_rule(index, rep, rid, modules):
     return n
 
 
+# one accepted instance per named function (keyed by the function, not by the local's name, which a renaming changes);
+# a second leaked value in the same function is reported together with the first
 LEAKED_LOOP_VALUE_OK = {
-    ("dendropy.dataio.nexmlwriter.NexmlWriter._write_tree", "node"): "flows only into _write_edge's `is_root`, a parameter the callee never reads (it decides on edge.tail_node itself)",
-    ("dendropy.calculate.treecompare.AssemblageInducedTreeShapeKernel.__call__", "distances"): "the kernel-trick score table is outside every property's distances (it does report the LAST permutation's vector where the joint minimum was meant - noted in DESIGN 8.11)",
+    "dendropy.dataio.nexmlwriter.NexmlWriter._write_tree": "the node loop's variable flows only into _write_edge's `is_root`, a parameter the callee never reads (it decides on edge.tail_node itself)",
+    "dendropy.calculate.treecompare.AssemblageInducedTreeShapeKernel.__call__": "the kernel-trick score table is outside every property's distances (it does report the LAST permutation's vector where the joint minimum was meant - noted in DESIGN 8.11)",
 }
 
 
@@ -1740,6 +1742,7 @@ def leaked_loop_value_rule(index, rep, rid, modules):
             if len(loops) < 2:
                 continue
             allst = [x for x in walk_no_nested(f.node) if isinstance(x, ast.Name) and isinstance(x.ctx, (ast.Store, ast.Del))]
+            found = []
             for l1 in loops:
                 inner = {id(x) for x in ast.walk(l1)}
                 per_iter = stores(l1) - {x.id for x in allst if id(x) not in inner} - set(f.all_params)
@@ -1754,12 +1757,20 @@ def leaked_loop_value_rule(index, rep, rid, modules):
                         if isinstance(x, ast.Name) and isinstance(x.ctx, ast.Load) and x.id in per_iter and x.id not in own and x.id not in seen:
                             seen.add(x.id)
                             n += 1
-                            why = LEAKED_LOOP_VALUE_OK.get((f.qualname, x.id))
-                            if why:
-                                rep.ob(rid, fn_where(f, x), "%s: `%s` read after its loop - accepted: %s" % (f.name, x.id, why), True, nontrivial=False)
-                                continue
-                            rep.check(False, rid, f.qualname, "`%s` of an earlier loop read in a later loop" % x.id, fn_where(f, x), "",
-                                      "%s binds `%s` only inside the loop at line %d and reads it inside the later loop at line %d: every pass of the second loop sees what the LAST pass of the first left behind - items collected from several blocks / groups are all built against the last one's value (trees of an earlier <trees> block get the taxa of the last <otus> block)" % (f.qualname, x.id, l1.lineno, l2.lineno))
+                            found.append((x, l1, l2))
+            names = {x.id for x, _, _ in found}
+            why = LEAKED_LOOP_VALUE_OK.get(f.qualname)
+            if why and len(names) == 1:
+                x = found[0][0]
+                rep.ob(rid, fn_where(f, x), "%s: one per-iteration value read after its loop - accepted: %s" % (f.name, why), True, nontrivial=False)
+                continue
+            done = set()
+            for x, l1, l2 in found:
+                if x.id in done:
+                    continue
+                done.add(x.id)
+                rep.check(False, rid, f.qualname, "a value of an earlier loop read in a later loop (#%d)" % len(done), fn_where(f, x), "",
+                          "%s binds `%s` only inside the loop at line %d and reads it inside the later loop at line %d: every pass of the second loop sees what the LAST pass of the first left behind - items collected from several blocks / groups are all built against the last one's value (trees of an earlier <trees> block get the taxa of the last <otus> block)" % (f.qualname, x.id, l1.lineno, l2.lineno))
     return n
 
 
